@@ -180,6 +180,12 @@ fn lists(thorough: bool) -> Vec<Vec<RV>> {
             v.push(extend_periodic(&w, n));
         }
     }
+    // size ladder (sizes around powers of two and ten)
+    let sizes: &[usize] = if thorough { &[100, 255, 256, 257, 1000, 1024, 1025, 4097] } else { &[257, 1025] };
+    for &n in sizes {
+        v.push(extend_periodic(&[RV::Num(4.0), RV::Num(1.0), RV::Num(-1.0), RV::Num(2.0), RV::Num(0.0)], n));
+        v.push((0..n).map(|i| RV::Num(((7 * i + 3) % 11) as f64 - 5.0)).collect());
+    }
     v.push(vec![RV::Bool(true), RV::Bool(false)]);
     v.push(vec![RV::List(vec![RV::Num(1.0), RV::Num(2.0)]), RV::List(vec![])]);
     v
@@ -330,7 +336,7 @@ pub fn run(ctx: &Ctx, replay: Option<&J>) -> i32 {
     finish(
         ctx,
         "exploration",
-        "every list (all words of length <= 3/4 over a 6-value alphabet plus periodic extensions to 10) x every function of a 38-entry pool plus every parameter shape (0..3 required, 0..3 optional, rest; as a function returning its parameters and as a predicate on its second parameter) (arity 1, 2, optional, rest, closures, curried, self-recursive, mutually recursive, built-ins of each arity class, non-functions) x the equivalent program pairs via/map, where/filter, into/application, unrolled element+index calls, reduce/unrolled fold, every/some vs fold of predicate results; both forms evaluated in the same session; distinct = distinct left-hand programs",
+        "every list (all words of length <= 3/4 over a 6-value alphabet plus periodic extensions to 10 and a size ladder of 257 / 1025 (thorough 100..4097) elements) x every function of a 38-entry pool plus every parameter shape (0..3 required, 0..3 optional, rest; as a function returning its parameters and as a predicate on its second parameter) (arity 1, 2, optional, rest, closures, curried, self-recursive, mutually recursive, built-ins of each arity class, non-functions) x the equivalent program pairs via/map, where/filter, into/application, unrolled element+index calls, reduce/unrolled fold, every/some vs fold of predicate results; both forms evaluated in the same session; distinct = distinct left-hand programs",
         true,
         None,
     )
